@@ -41,15 +41,17 @@ func traverse(context Context, matchingNode *CandidateNode, operation *Operation
 	if matchingNode.Tag == "!!null" && operation.Value != "[]" && !context.DontAutoCreate {
 		log.Debugf("Guessing kind")
 		// we must have added this automatically, lets guess what it should be now
-		newKind := MappingNode
 		switch operation.Value.(type) {
 		case int, int64:
 			log.Debugf("probably an array")
-			newKind = SequenceNode
+			dropChildrenUnlessKind(matchingNode, SequenceNode)
+			matchingNode.Kind = SequenceNode
 		default:
 			log.Debugf("probably a map")
+			dropChildrenUnlessKind(matchingNode, MappingNode)
+			matchingNode.Kind = MappingNode
 		}
-		becomeEmptyContainer(matchingNode, newKind)
+		matchingNode.Tag = ""
 	}
 
 	switch matchingNode.Kind {
@@ -77,11 +79,15 @@ func traverse(context Context, matchingNode *CandidateNode, operation *Operation
 // A null has no children: a node of another container kind that was merely re-tagged !!null must not keep the
 // children of its old kind (the elements of a sequence are not the key/value pairs of a map).
 func becomeEmptyContainer(node *CandidateNode, kind Kind) {
+	dropChildrenUnlessKind(node, kind)
+	node.Kind = kind
+	node.Tag = ""
+}
+
+func dropChildrenUnlessKind(node *CandidateNode, kind Kind) {
 	if node.Kind != kind && (node.Kind == MappingNode || node.Kind == SequenceNode) {
 		node.Content = nil
 	}
-	node.Kind = kind
-	node.Tag = ""
 }
 
 // an alias made by `alias = "name"` carries a name only, not the node the name stands for
